@@ -381,3 +381,35 @@ func VH_C05_new_composite_list() {
 		vAssert(s2.readUint64(addr) == 0x1122334455667788, "C05.newcomposite.elements-do-not-reach-into-the-next-object")
 	}
 }
+
+// newPrimitiveList for EVERY length and the four element sizes: either it refuses, or the storage it
+// claimed holds all n elements (no wrap of n*size), the list's count is n, and its pointer word
+// carries that count - a list that claims more elements than it owns overlaps its neighbours.
+func VH_C05_new_primitive_list() {
+	_, seg := vMsgRW1()
+	n := int32(vNondetU32())
+	sz := Size([4]int{1, 2, 4, 8}[vConc(int(vNondetU8()), 4)])
+	oldLen := segLen(seg)
+	// (the segment has room for what the list needs, computed without wrap-around: the arena's growth
+	// path is decided by the alloc harnesses)
+	vAssume(n < 0 || pad8(int64(n)*int64(sz)) <= int64(cap(seg.data))-oldLen || int64(n)*int64(sz) > 1<<32-8)
+	l, err := newPrimitiveList(seg, sz, n)
+	vReach("returned")
+	if err != nil {
+		return
+	}
+	vReach("ok")
+	vAssert(l.seg == seg, "C05.newlist.placed-in-the-preferred-segment-when-it-fits")
+	vAssert(n >= 0, "C05.newlist.negative-length-refused")
+	if n < 0 {
+		return
+	}
+	vAssert(int64(l.length) == int64(n) && l.size.DataSize == sz, "C05.newlist.count-and-element-size")
+	need := int64(n) * int64(sz)
+	vAssert(int64(l.off)+need <= segLen(l.seg), "C05.newlist.storage-claimed-for-every-element")
+	if l.seg == seg {
+		vAssert(int64(l.off) >= oldLen, "C05.newlist.disjoint-from-earlier-objects")
+	}
+	w := uint64(l.raw())
+	vAssert(refKind(w) == 1 && int64(refElemCount(w)) == int64(n), "C05.newlist.pointer-word-carries-the-count")
+}
